@@ -51,8 +51,32 @@ func genRestoreSrc() {
 			noteUnknown("decorator/restorer.go RestoreFile", "state reset differs from the model's initial state: "+strings.Join(sts, " ; "))
 		}
 	}
+	// Decorator.DecorateNode (decorator/decorator.go): a File is fragmented and linked as a whole; the
+	// files of a Package one at a time on an emptied fragment list, so what the models say about File
+	// roots (Model/Fragment.v, Model/Link.v) holds for each file of a package.
+	okp := false
+	g := parseNoComments(filepath.Join(*repo, "decorator/decorator.go"))
+	for _, d := range g.Decls {
+		fd, isF := d.(*ast.FuncDecl)
+		if !isF || fd.Name.Name != "DecorateNode" || fd.Recv == nil || fd.Body == nil {
+			continue
+		}
+		for _, s := range fd.Body.List {
+			t := strings.Join(strings.Fields(src(s)), " ")
+			if strings.HasPrefix(t, "if pkg, ok := n.(*ast.Package)") {
+				okp = t == "if pkg, ok := n.(*ast.Package); ok { for _, file := range pkg.Files { fd.fragments = nil fd.fragment(file) fd.link() } } else { fd.fragment(n) fd.link() }"
+				if !okp {
+					noteUnknown("decorator/decorator.go package-per-file", "fragment/link of a package differs from 'each file on its own': "+t)
+				}
+			}
+		}
+		if !okp {
+			noteUnknown("decorator/decorator.go package-per-file", "no per-file fragment/link of packages found")
+		}
+	}
 	var b strings.Builder
-	b.WriteString("(* GENERATED from /repo/decorator/restorer.go -- do not edit *)\n")
+	b.WriteString("(* GENERATED from /repo/decorator/restorer.go and decorator.go -- do not edit *)\n")
 	fmt.Fprintf(&b, "Definition restorefile_starts_from_init_state : bool := %v.\n", ok)
+	fmt.Fprintf(&b, "Definition package_files_decorated_one_at_a_time : bool := %v.\n", okp)
 	writeIfChanged("RestoreSrc.v", b.String())
 }
